@@ -65,7 +65,7 @@ _T = {
          "alias kind = target codec kind, per-commit-type effect sets of sync_paths, metadata / redirect record written last, read mode "
          "decided by codec class", "abstract evaluation of set_store, file-system effect summaries with branch conditions decided per commit type"),
 }
-_DONE = ["C04", "C06", "C07", "C08", "C10", "C11", "C12", "C15", "C16", "C17", "C19"]
+_DONE = sorted(_T)
 
 CHECKS = [dict(property_id=p, text="Static verdict on: " + _T[p][0] + "." + WHY, design_ref=f"DESIGN.md section 4, {p}", note=NOTE,
                technique="static analysis: " + _T[p][1]) for p in sorted(_DONE)]
